@@ -215,3 +215,29 @@ def load_prop(prop_id):
 def exc_enum(e):
     """map a Python exception to the small error enum of the protocol"""
     return 'err ' + type(e).__name__
+
+
+class pnc_warnings:
+    """context manager recording PseudoNetCDF warnings (its `warn` wrapper swaps
+    warnings.showwarning, which defeats warnings.catch_warnings(record=True))"""
+
+    def __enter__(self):
+        import warnings
+        import PseudoNetCDF.pncwarn as pw
+        self.pw = pw
+        self.old = pw.clean_showwarning
+        self.msgs = []
+        pw.clean_showwarning = lambda message, *a, **k: self.msgs.append(str(message))
+        self.cw = warnings.catch_warnings()
+        self.cw.__enter__()
+        warnings.simplefilter('always')
+        self.oldshow = warnings.showwarning
+        pw.std_showwarning = lambda message, *a, **k: self.msgs.append(str(message))
+        warnings.showwarning = pw.std_showwarning
+        return self
+
+    def __exit__(self, *exc):
+        self.pw.clean_showwarning = self.old
+        self.pw.std_showwarning = self.oldshow
+        self.cw.__exit__(*exc)
+        return False
